@@ -82,7 +82,7 @@ func (c19Driver) Info() core.Info {
 			"map iteration order is pinned to sorted by a stateless hook so that the yield sequence is a function of the schedule",
 		},
 		Real: []string{"the whole library built with -race: lexer, parser, AST builder, Process, Entry read API, the four mutexes", "Go race detector"},
-		Stub: []string{"choice of which caller goroutine proceeds (seeded turn-based scheduler at lock points and ticks)", "lock blocking (TryLock + yield instead of parking)", "Go map iteration order (pinned to sorted)", "sync.Pool in the -race build (overlay: every Put drops its object)"},
+		Stub: []string{"choice of which caller goroutine proceeds (seeded turn-based scheduler at lock points and ticks)", "lock blocking (TryLock + yield instead of parking)", "Go map iteration order (pinned to sorted)", "sync.Pool in the -race build (overlay: every Put drops its object)", "disk (stateless: empty, or for K1-from-disk a read-only in-memory tree shared by the tasks; findFile / findInDir themselves are real)"},
 	}
 }
 
